@@ -17,6 +17,7 @@ import (
 	"testing"
 
 	"github.com/boz/kcache/filter"
+	"github.com/boz/kcache/nsname"
 	metav1 "k8s.io/apimachinery/pkg/apis/meta/v1"
 	"pgregory.net/rapid"
 )
@@ -340,5 +341,67 @@ func TestC17_LabelSets(t *testing.T) {
 	statMu.Unlock()
 	if shard == 0 {
 		statExhaustive("C17", fmt.Sprintf("all ordered pairs of %d label-map-taking filters (every constructor x %d label maps incl. empty values, bare and wrapped)", len(terms), len(maps)))
+	}
+}
+
+// TestC17_NSNameSets: every NSName filter over id lists of length <= 2 drawn
+// from {a/, b/, a/p, a/q, b/p, /p} (namespace-only, full and name-only
+// entries), bare and under Not/And/Or; all ordered pairs.
+func TestC17_NSNameSets(t *testing.T) {
+	ids := []nsname.NSName{nsname.New("a", ""), nsname.New("b", ""), nsname.New("a", "p"), nsname.New("a", "q"), nsname.New("b", "p"), nsname.New("", "p")}
+	leaves := []*term{{Kind: tNSName}}
+	for _, x := range ids {
+		leaves = append(leaves, &term{Kind: tNSName, IDs: []nsname.NSName{x}})
+		for _, y := range ids {
+			leaves = append(leaves, &term{Kind: tNSName, IDs: []nsname.NSName{x, y}})
+		}
+	}
+	terms := append([]*term{}, leaves...)
+	for i, x := range leaves {
+		terms = append(terms, &term{Kind: tNot, Children: []*term{x}})
+		if i%4 == 0 {
+			terms = append(terms, &term{Kind: tOr, Children: []*term{x, {Kind: tAll}}}, &term{Kind: tAnd, Children: []*term{{Kind: tNull}, x}})
+		}
+	}
+	filters := make([]filter.Filter, len(terms))
+	filters2 := make([]filter.Filter, len(terms))
+	bits := make([]bitset, len(terms))
+	for i, tm := range terms {
+		filters[i], filters2[i] = tm.build(), tm.build()
+		bits[i] = acceptBits(filters[i], c17Universe)
+		if msg := c17Rebuild(tm); msg != "" {
+			writeEnumReplay(t, "C17", "TestC17_NSNameSets", tm.String(), msg)
+			t.Fatalf("C17 violation: %s", msg)
+		}
+	}
+	shard, nshards := shardOf()
+	var pairs, equalPairs int64
+	for i := range terms {
+		if i%nshards != shard {
+			continue
+		}
+		for j := range terms {
+			equal, _, msg := c17CheckPair(terms[i], terms[j], filters[i], filters2[j], bits[i], bits[j])
+			if msg != "" {
+				writeEnumReplay(t, "C17", "TestC17_NSNameSets", terms[i].String()+" ~ "+terms[j].String(), msg)
+				t.Fatalf("C17 violation: %s", msg)
+			}
+			pairs++
+			if equal {
+				equalPairs++
+				a, b := terms[i], terms[j]
+				statCase("C17", hashString("ns:"+a.String()+" ~ "+b.String()), true, func() interface{} {
+					return map[string]interface{}{"a": a.String(), "b": b.String(), "reported_equal": true, "mode": "NSName id-list enumeration", "objects_compared": len(c17Universe)}
+				}, "nsnamesets_reported_equal")
+			}
+		}
+	}
+	statMu.Lock()
+	p := statFor("C17")
+	p.Evaluations += pairs - equalPairs
+	p.Labels["nsnamesets_pairs"] += pairs
+	statMu.Unlock()
+	if shard == 0 {
+		statExhaustive("C17", fmt.Sprintf("all ordered pairs of %d NSName filters (id lists of length <= 2 over 6 ids: namespace-only, full, name-only; bare and wrapped)", len(terms)))
 	}
 }
